@@ -6,7 +6,27 @@
 // ctsim).
 #include "tsanrt.hpp"
 
+#include <cstdlib>
+#include <fcntl.h>
+#include <unistd.h>
+#include <sys/mman.h>
+
 TsanHooks g_tsan;
+
+// Reach measurement (mk/reach.py): with VERIF_PCCOV=<file> every basic block of instrumented library code that executes
+// sets one byte of a file-backed shared map indexed by image offset.  The map is shared by all forked workers and by
+// successive processes, costs no PRNG draw and no clock read, and is off unless the variable is set.
+extern "C" char __executable_start, etext;
+static uint8_t *g_pccov = nullptr; static uintptr_t g_pccov_base = 0, g_pccov_size = 0;
+__attribute__((constructor)) static void pccov_init() {
+    const char *path = getenv("VERIF_PCCOV"); if (!path || !*path) return;
+    g_pccov_base = (uintptr_t)&__executable_start; g_pccov_size = (uintptr_t)&etext - g_pccov_base;
+    int fd = open(path, O_RDWR | O_CREAT, 0644); if (fd < 0) return;
+    if (ftruncate(fd, (off_t)g_pccov_size) != 0) { close(fd); return; }
+    void *m = mmap(nullptr, g_pccov_size, PROT_READ | PROT_WRITE, MAP_SHARED, fd, 0); close(fd);
+    if (m != MAP_FAILED) g_pccov = (uint8_t *)m;
+}
+#define PCCOV() do { if (g_pccov) { uintptr_t o = (uintptr_t)__builtin_return_address(0) - g_pccov_base; if (o < g_pccov_size) g_pccov[o] = 1; } } while (0)
 
 #define MEMHOOK(addr, size, wr) do { if (g_tsan.mem) g_tsan.mem((void *)(addr), (size), (wr), __builtin_return_address(0)); } while (0)
 
@@ -36,8 +56,8 @@ void __tsan_read_range(void *a, unsigned long n) { MEMHOOK(a, (unsigned)n, 0); }
 void __tsan_write_range(void *a, unsigned long n) { MEMHOOK(a, (unsigned)n, 1); }
 void __tsan_vptr_update(void **, void *) {}
 void __tsan_vptr_read(void **) {}
-void __sanitizer_cov_trace_pc() { if (g_tsan.pc) g_tsan.pc(__builtin_return_address(0)); }
-void __sanitizer_cov_trace_pc_guard(unsigned *) { if (g_tsan.pc) g_tsan.pc(__builtin_return_address(0)); }
+void __sanitizer_cov_trace_pc() { PCCOV(); if (g_tsan.pc) g_tsan.pc(__builtin_return_address(0)); }
+void __sanitizer_cov_trace_pc_guard(unsigned *) { PCCOV(); if (g_tsan.pc) g_tsan.pc(__builtin_return_address(0)); }
 void __sanitizer_cov_trace_pc_guard_init(unsigned *, unsigned *) {}
 // C11 atomics in instrumented code (-fsanitize=thread routes them through the run-time).  They are performed for real and
 // reported through a separate hook: a synchronisation point for the scheduler, and a write to static storage is still
